@@ -99,11 +99,13 @@ def cases(props):
             if not fn.endswith('.diff'):
                 continue
             mp = os.path.join(bd, fn[:-5] + '.json')
-            checks = json.load(open(mp))['checks'] if os.path.exists(mp) else []
+            bm_ = json.load(open(mp)) if os.path.exists(mp) else {}
+            checks = bm_.get('checks', [])
             for pid in checks:
                 if props and pid not in props:
                     continue
-                out.append({'kind': 'benign', 'name': fn, 'pid': pid, 'rules': [], 'expect': 0,
+                # expect 0 (holds) - or 2 for the documented shapes the check declines to judge (never 1)
+                out.append({'kind': 'benign', 'name': fn, 'pid': pid, 'rules': [], 'expect': bm_.get('expect', 0),
                             'apply': apply_patch(os.path.join(bd, fn))})
     return out
 
